@@ -371,6 +371,14 @@ func replay(path string) int {
 	var hv struct {
 		Witness map[string]any `json:"witness"`
 	}
+	if err := json.Unmarshal(b, &hv); err == nil && (hv.Witness["mode"] == "retention" || hv.Witness["mode"] == "roundtrip") {
+		// sequential phases: replayed by running the (short) check again and looking for the same key
+		if err := common.ReplayByRerun(path); err != nil {
+			fmt.Fprintln(os.Stderr, err)
+			return 2
+		}
+		return run()
+	}
 	if err := json.Unmarshal(b, &hv); err == nil && hv.Witness["mode"] == "history" {
 		rc := replayHistory(hv.Witness)
 		if rc == 1 {
@@ -682,6 +690,16 @@ func run() int {
 	for _, f := range hf {
 		addViol(10000000+f.idx, f.v)
 	}
+	rf, rcalls, rerr := runRetention(dir)
+	if rerr != nil {
+		fmt.Fprintln(os.Stderr, "retention phase:", rerr)
+		return 2
+	}
+	evaluations += int64(rcalls)
+	for _, f := range rf {
+		addViol(f.idx, f.v)
+	}
+	rep.Set("retention_calls", rcalls)
 	rep.Set("history_pairs", hpairs)
 	rep.Set("history_reads", hreads)
 	rep.Set("history_outcomes", houtcomes)
@@ -725,6 +743,7 @@ func run() int {
 		"History phase: per wallet, 5 pasts of the path (another wallet saved earlier with the same key, 16 and 32 bytes; with another key, 16 and 32 bytes; the same wallet saved earlier with a key of the other length), "+
 		"each followed by the real second SaveWallet; the directory as SaveWallet left it is restored before every read; every truncation, two (thorough: five) values per byte position, the earlier key, 8 unrelated keys and every 7th key bit flip; "+
 		"the answer must be the wallet saved last or an error. "+
+		"Retention phase: the encodings of all wallets are kept while the others are encoded and decoded afterwards; six wallets/keys are saved in a row and all read back afterwards. "+
 		"exhaustive=true means every planned case of this alphabet was executed before the internal deadline.")
 	rep.Assume("AES-GCM (crypto/aes, crypto/cipher) is trusted: a forged tag is accepted with probability 2^-128, so 'error for every altered byte' is decided for these six nonces and generalises to other nonces only through that argument")
 	rep.Assume("the nonce drawn by aeswrapper.Encrypt from crypto/rand is not controlled; the saved bytes are recorded in every witness so a counterexample replays bit-exactly")
